@@ -11,7 +11,9 @@ SEQ_NOTE = ("Trusted: Coq 8.16.1 kernel (+vm_compute), no axioms (Print Assumpti
             "(generated request histories run on the real WSGI app on SQLite and inside Coq by vm_compute; status, error code, "
             "returned generation and full canonical table dump compared after every request), constants regenerated from /repo "
             "by translate/consts.py. Modelled, not verified: SQL as list functions, enginefacade rollback, JSON/webob parsing; "
-            "requests are schema-valid (req_wf).")
+            "requests are schema-valid (req_wf) - derived from the regenerated JSON schemas by theorem C15_valid_body_wf "
+            "(Model/Json.v, Gen/GenSchemas.v, Model/Decode.v). The property quantifies over request sequences; two overlapping "
+            "requests are additionally explored by the interleaving stream of harness/conc_extra.py (oracle only, C04 C08 C09 C10 C12).")
 CHECKS = {
     'C01': ("proof", "Coq theorems C01_accepted_write / C01_overcommit_origin / C01_history over the executable model of the "
             "allocation write paths (PUT/POST allocations, reshaper) incl. the double-rounded capacity product, for all states, "
@@ -117,17 +119,24 @@ CHECKS.update({
             "6 C20", "Trusted: kernel; sample_contract / shuffle_contract are explicit hypotheses (CPython random); the order of the unlimited "
             "list (set/dict iteration, SQLite row order) is not modelled.",
             "Coq proof with the random choice as a universally quantified oracle + object-level differential execution of limit_results"),
-    'C15': ("proof", "Coq theorems: no write request of the model, in ANY state and at any microversion, is answered with a status >= 500 "
-            "(every object-layer failure of set_allocations / set_inventory / reshape is one of the exceptions the handlers convert), the same "
-            "behind the front pipeline (authentication, routing, decorators, policy) computed from the regenerated route tables, a front "
-            "rejection leaves the state alone, and a rejected request (>= 400) leaves the core state unchanged. PARTIAL: body/query parsing, "
-            "JSON-schema validation, the JSON error document and the read routes are not modelled; they are covered by the mutation stream "
-            "(grammar-based mutation of valid requests to every route in plain / exotic-topology / random-history states: no escaped "
-            "exception, no 5xx, errors-guideline document for every 4xx, no core-table change on 400/404/405/406/415), which is testing, not "
-            "proof. Tie: differential histories model vs application with the C15 oracle on every step.",
-            "6 C15", SEQ_NOTE + " Stored state = nine core tables (project/user/consumer-type name rows excluded, as for C04).",
-            "Coq proof (case analysis over every handler and object-layer exception; pipeline over regenerated tables) + correspondence histories; "
-            "mutation stream as search for failing inputs"),
+    'C15': ("proof", "Coq theorems: (a) no write request of the model, in ANY state and at any microversion, is answered with a status "
+            ">= 500, the same behind the front pipeline computed from the regenerated route tables, a front rejection leaves the state "
+            "alone, a rejected request (>= 400) leaves the core state unchanged, and the model's error answers are the entries of the "
+            "exception table regenerated from the handlers' try statements; (b) none of the eight query-string VALUE parsers of util.py / "
+            "lib.py (Model/Parse.v: Python exception semantics, str.split/strip, int() over all Unicode digit blocks, is_uuid_like) ends in "
+            "an exception other than HTTPBadRequest, for arbitrary strings, and what they accept is well formed; (c) a request body "
+            "accepted by python-jsonschema under the schema its route uses at ANY minor version (52 schemas REGENERATED from "
+            "placement/schemas on every build, validator Model/Json.v) decodes (Model/Decode.v) to a request satisfying req_wf - the "
+            "assumption of the sequential theorems - with two refutations kept as theorems (PUT traits admits repeats; allocation_ratio "
+            "NaN/-Infinity is schema-valid: a 500 found by this proof attempt, fix df933f2). PARTIAL: splitting text into values (webob, "
+            "json.loads), the JSON error document and the read routes behind the parsers are covered by testing only: the mutation stream "
+            "and the boundary stream (every single-node boundary variant of every valid write body, schema learnt from the running code, "
+            "sent over HTTP). Tie: differential histories; value parsers, schema validator, decoders and schema choice compared with "
+            "the running code on every run.",
+            "6 C15", SEQ_NOTE + " Stored state = nine core tables (project/user/consumer-type name rows excluded, as for C04). CPython "
+            "builtins and python-jsonschema semantics are modelled and compared with the running interpreter/library on every run.",
+            "Coq proof (case analysis over every handler and exception; pipeline over regenerated tables; parser model; schema shapes over "
+            "the regenerated schemas) + correspondence streams; mutation and boundary streams as search for failing inputs"),
     'C13': ("proof", "Coq theorems: for any state with unique provider uuids and any filters whose trait / class names exist, GET "
             "/resource_providers of the model (which follows _get_all_by_filters_from_db stage by stage) lists EXACTLY the existing providers "
             "that satisfy every supplied filter (rp_matches: name, uuid, in_tree, member_of incl. in:/!/!in:, required incl. in:/!, resources "
